@@ -14,18 +14,26 @@ Local Open Scope Z_scope.
    for ptrunc, a successful Create/OpenFile for a new empty file or (O_TRUNC) an emptied one;
    every other call, and every call that reported an error with count 0, accounts for nothing. *)
 Theorem C19_writes_accounted : forall (items : list sitem) (st : sftp_state),
-  s_objs (st_srv (fst (sftp_run st items))) = accounted (sftp_trace st items) (s_objs (st_srv st)).
+  sv_objs (sst_srv (fst (sftp_run st items))) = accounted (sftp_trace st items) (sv_objs (sst_srv st)).
 Proof. exact writes_accounted. Qed.
 Print Assumptions C19_writes_accounted.
 
 (* what the accounting says for the two extreme reports *)
-Theorem C19_full_count_stores_all : forall d pos b, acc_seq d pos b (zlen b) None = pwrite d (Z.to_nat pos) b.
+Theorem C19_full_count_stores_all : forall d pos b, b <> [] ->
+  acc_seq d pos b (zlen b) None = pwrite d (Z.to_nat pos) b.
 Proof. exact acc_seq_full. Qed.
 Print Assumptions C19_full_count_stores_all.
 Theorem C19_zero_count_stores_nothing : forall d pos off b e, b <> [] ->
   acc_seq d pos b 0 e = d /\ acc_at d off b 0 = d.
 Proof. intros; split; [now apply acc_seq_zero | apply acc_at_zero]. Qed.
 Print Assumptions C19_zero_count_stores_nothing.
+
+(* an empty payload reported (0, nil): nothing is written; this server zero-extends the file up to
+   the position (ptrunc to max(length, position)) and the accounting says so *)
+Theorem C19_empty_write_only_extends : forall d pos,
+  acc_seq d pos [] 0 None = ptrunc d (Nat.max (length d) (Z.to_nat pos)).
+Proof. exact acc_seq_empty. Qed.
+Print Assumptions C19_empty_write_only_extends.
 
 (* the trace the accounting folds over carries exactly the results the calls returned *)
 Theorem C19_trace_is_reported : forall items st,
@@ -37,8 +45,8 @@ Print Assumptions C19_trace_is_reported.
    slot, the handle is the same handle and its offset moved by the reported count of a
    Read/Write/WriteString through it, or to the reported position of a successful Seek *)
 Theorem C19_offsets_track_reports : forall st slot o i f,
-  sf_slot_get (st_slots st) i = Some f -> ~ rebinds slot o i ->
-  exists f', sf_slot_get (st_slots (fst (sftp_step st (slot, o)))) i = Some f' /\
+  sf_slot_get (sst_slots st) i = Some f -> ~ rebinds slot o i ->
+  exists f', sf_slot_get (sst_slots (fst (sftp_step st (slot, o)))) i = Some f' /\
              same_handle f f' /\
              sf_off f' = next_off o i (sf_off f) (snd (sftp_step st (slot, o))).
 Proof. exact offsets_track_reports. Qed.
@@ -49,7 +57,7 @@ Print Assumptions C19_offsets_track_reports.
    any path for Stat), the call through sftpfs returns exactly its answer — pread of the file's
    bytes with EOF iff the read is short, the new position, the size. *)
 Theorem C19_reads_exact : forall st it r,
-  spec_read st (s_objs (st_srv st)) it = Some r -> snd (sftp_step st it) = r.
+  spec_read st (sv_objs (sst_srv st)) it = Some r -> snd (sftp_step st it) = r.
 Proof. exact reads_exact. Qed.
 Print Assumptions C19_reads_exact.
 
@@ -58,39 +66,39 @@ Print Assumptions C19_reads_exact.
    contents) shows at every step the same server as the model run, and every prediction it makes
    is the result the call returned.  The check compares the implementation with exactly these. *)
 Theorem C19_spec_run_agrees : forall items st,
-  map fst (sftp_run_spec st (s_objs (st_srv st)) items) = map snd (sftp_run_obs st items) /\
-  Forall2 pred_ok (map snd (sftp_run_spec st (s_objs (st_srv st)) items)) (map fst (sftp_run_obs st items)).
+  map fst (sftp_run_spec st (sv_objs (sst_srv st)) items) = map snd (sftp_run_obs st items) /\
+  Forall2 pred_ok (map snd (sftp_run_spec st (sv_objs (sst_srv st)) items)) (map fst (sftp_run_obs st items)).
 Proof. exact spec_run_agrees. Qed.
 Print Assumptions C19_spec_run_agrees.
 
 (* Directory creation.  FULL statement (what the property asks for):
-     forall s p s', wf (s_tree s) -> fs_mkdirall false fuel s p = (s', ROk) ->
+     forall s p s', wf (sv_tree s) -> fs_mkdirall false fuel s p = (s', ROk) ->
        forall a rest, skey p = a ++ rest -> is_dir s' a.
    It is FALSE for the code as it is: C19_mkdirall_on_file_reports_ok below (MkdirAll on an existing
    regular file returns nil and creates nothing).  Proved: the statement for every path that does
    not name a regular file (_partial), and the full statement for the patched code
    (fixed = true: the fast path returns ENOTDIR for a non-directory). *)
 Theorem C19_mkdirall_creates_ancestors_partial : forall fuel s p s',
-  wf (s_tree s) -> (forall i, lfetch (s_tree s) (skey p) <> Some (NFile i)) ->
+  wf (sv_tree s) -> (forall i, lfetch (sv_tree s) (skey p) <> Some (SfFile i)) ->
   fs_mkdirall false fuel s p = (s', ROk) ->
   forall a rest, skey p = a ++ rest -> is_dir s' a.
 Proof. intros fuel s p s' Hwf Hnf. apply mkdirall_creates_ancestors; [exact Hwf | right; exact Hnf]. Qed.
 Print Assumptions C19_mkdirall_creates_ancestors_partial.
 
 Theorem C19_mkdirall_creates_ancestors_patched : forall fuel s p s',
-  wf (s_tree s) -> fs_mkdirall true fuel s p = (s', ROk) ->
+  wf (sv_tree s) -> fs_mkdirall true fuel s p = (s', ROk) ->
   forall a rest, skey p = a ++ rest -> is_dir s' a.
 Proof. intros fuel s p s' Hwf. apply mkdirall_creates_ancestors; [exact Hwf | left; reflexivity]. Qed.
 Print Assumptions C19_mkdirall_creates_ancestors_patched.
 
 Theorem C19_mkdirall_on_file_reports_ok : forall fuel s p i,
-  lfetch (s_tree s) (skey p) = Some (NFile i) -> fs_mkdirall false fuel s p = (s, ROk).
+  lfetch (sv_tree s) (skey p) = Some (SfFile i) -> fs_mkdirall false fuel s p = (s, ROk).
 Proof. exact mkdirall_on_file_reports_ok. Qed.
 Print Assumptions C19_mkdirall_on_file_reports_ok.
 
 (* the well-formedness assumed above (every entry's parent is a directory) holds in every state
    reachable from the empty server, and MkdirAll never touches file contents *)
-Theorem C19_reachable_wf : forall items, wf (s_tree (st_srv (fst (sftp_run sftp_init items)))).
+Theorem C19_reachable_wf : forall items, wf (sv_tree (sst_srv (fst (sftp_run sftp_init items)))).
 Proof. intros items. apply reachable_wf. exact wf_nil. Qed.
 Print Assumptions C19_reachable_wf.
 
@@ -100,27 +108,27 @@ Print Assumptions C19_reachable_wf.
    is below it) hold what the old one held, leaves nothing below the old name and everything else
    where it was, a failed one changes nothing; neither touches file contents. *)
 Theorem C19_rename_remove_stat_delegate : forall s,
-  (forall p, fs_stat s p = match lfetch (s_tree s) (skey p) with
+  (forall p, fs_stat s p = match lfetch (sv_tree s) (skey p) with
                            | None => RErr eNotExist
-                           | Some NDir => RInfo (info_of (path_base p) true 0)
-                           | Some (NFile i) => RInfo (info_of (path_base p) false (zlen (obj_content (s_objs s) i)))
+                           | Some SfDir => RInfo (info_of (path_base p) true 0)
+                           | Some (SfFile i) => RInfo (info_of (path_base p) false (zlen (obj_content (sv_objs s) i)))
                            end) /\
   (forall p s' r, fs_remove s p = (s', r) ->
-     s_objs s' = s_objs s /\
+     sv_objs s' = sv_objs s /\
      match r with
-     | ROk => (forall q, q <> skey p -> lfetch (s_tree s') q = lfetch (s_tree s) q) /\
-              (skey p <> [] -> lfetch (s_tree s') (skey p) = None) /\
-              (exists n, lfetch (s_tree s) (skey p) = Some n)
+     | ROk => (forall q, q <> skey p -> lfetch (sv_tree s') q = lfetch (sv_tree s) q) /\
+              (skey p <> [] -> lfetch (sv_tree s') (skey p) = None) /\
+              (exists n, lfetch (sv_tree s) (skey p) = Some n)
      | _ => s' = s
      end) /\
-  (forall a b s' r, wf (s_tree s) -> fs_rename s a b = (s', r) ->
-     s_objs s' = s_objs s /\
+  (forall a b s' r, wf (sv_tree s) -> fs_rename s a b = (s', r) ->
+     sv_objs s' = sv_objs s /\
      match r with
-     | ROk => (exists n, lfetch (s_tree s) (skey a) = Some n) /\ lfetch (s_tree s) (skey b) = None /\
-              forall q, lfetch (s_tree s') q =
+     | ROk => (exists n, lfetch (sv_tree s) (skey a) = Some n) /\ lfetch (sv_tree s) (skey b) = None /\
+              forall q, lfetch (sv_tree s') q =
                         match kstrip (skey a) q with
                         | Some _ => None
-                        | None => lfetch (s_tree s) (rename_src (skey a) (skey b) q)
+                        | None => lfetch (sv_tree s) (rename_src (skey a) (skey b) q)
                         end
      | _ => s' = s
      end).
@@ -138,11 +146,11 @@ Definition ex_items : list sitem :=
 Example C19_ex_run : snd (sftp_run sftp_init ex_items) =
   [RHandle 0; RCount 3 None; RCount 0 None; RPos 1 None; RData [98;99]%N (Some eEOF)].
 Proof. vm_compute. reflexivity. Qed.
-Example C19_ex_server : sftp_snapshot (st_srv (fst (sftp_run sftp_init ex_items))) = [([47;102]%N, Some [97;98;99]%N)].
+Example C19_ex_server : sftp_snapshot (sst_srv (fst (sftp_run sftp_init ex_items))) = [([47;102]%N, Some [97;98;99]%N)].
 Proof. vm_compute. reflexivity. Qed.
 (* MkdirAll "/d/e/g" on the empty server creates the three directories *)
 Example C19_ex_mkdirall :
-  map fst (sftp_snapshot (st_srv (fst (sftp_run sftp_init [(None, MkdirAll [47;100;47;101;47;103]%N 493)])))) =
+  map fst (sftp_snapshot (sst_srv (fst (sftp_run sftp_init [(None, MkdirAll [47;100;47;101;47;103]%N 493)])))) =
   [[47;100]%N; [47;100;47;101]%N; [47;100;47;101;47;103]%N].
 Proof. vm_compute. reflexivity. Qed.
 (* the defect: MkdirAll "/f" on the regular file "/f" answers ok *)
